@@ -156,6 +156,7 @@ class Ctx:
     params: List[str] = field(default_factory=list)          # parameter names available for {p}
     regs: List[str] = field(default_factory=list)            # register lexemes available
     loopvar: Optional[tuple] = None                           # (name, vtype)
+    loop_max: Optional[int] = None                            # largest value of an int loop variable when statically known
     used: set = field(default_factory=set)                    # all declared names (variables, loop vars)
     frozen: set = field(default_factory=set)                  # names that must not be redeclared
     names: Optional[list] = None                              # restricted pool for declared names / loop variables
@@ -222,6 +223,12 @@ def _int_operand(draw, ctx, depth, nonneg, small_exp):
 @st.composite
 def index_of(draw, ctx, name, depth=0):
     t, r, c, sym = ctx.arrays[name]
+    if ctx.loopvar and ctx.loopvar[1] == "int" and ctx.loop_max is not None and 0 <= ctx.loop_max < r * c and draw(st.integers(0, 2)) == 0:
+        # the loop variable itself (or with an offset that stays in range) as row-major index
+        off = draw(st.integers(0, r * c - 1 - ctx.loop_max))
+        if off and draw(st.booleans()):
+            return A.Idx(name, A.Flat([A.Operand("", A.Var(ctx.loopvar[0])), A.Operand("", A.Num("int", str(off)))], ["+"]))
+        return A.Idx(name, F1(A.Var(ctx.loopvar[0])))
     k = draw(st.integers(0, r * c - 1))
     form = draw(st.sampled_from(["lit", "lit", "sum", "prod"])) if depth >= 0 else "lit"
     if form == "sum" and k > 0:
@@ -657,7 +664,14 @@ def for_loop(draw, ctx, symbolic=None, max_mode=12, allow_empty=True, body_max=3
         header = A.ForList(vals, lbr, rbr)
     ctx.used.add(var)
     saved = ctx.loopvar
+    saved_max = ctx.loop_max
     ctx.loopvar = (var, vtype)
+    ctx.loop_max = None
+    if vtype == "int":
+        if isinstance(header, A.Range):
+            ctx.loop_max = max(int(header.a), int(header.b) - 1)
+        elif all(isinstance(v, A.Flat) and len(v.operands) == 1 and not v.operands[0].signs and isinstance(v.operands[0].prim, A.Num) for v in header.vals):
+            ctx.loop_max = max(int(v.operands[0].prim.text) for v in header.vals)
     if vtype == "bool":
         ctx.bools.append(var)
     if vtype == "str":
@@ -665,6 +679,7 @@ def for_loop(draw, ctx, symbolic=None, max_mode=12, allow_empty=True, body_max=3
     nb = draw(st.integers(1, body_max))
     body = [draw(statement(ctx, symbolic=symbolic, max_mode=max_mode)) for _ in range(nb)]
     ctx.loopvar = saved
+    ctx.loop_max = saved_max
     if vtype == "bool":
         ctx.bools.remove(var)
     if vtype == "str":
@@ -730,7 +745,8 @@ def script(draw, cfg=Cfg()):
             pn = pn.filter(lambda n: not (n[0] == "p" and n[1:].isdigit()))
         ctx.params = draw(st.lists(pn, min_size=1, max_size=4 if not cfg.names else 2, unique=True))
     if cfg.regs:
-        ctx.regs = draw(st.lists(st.integers(0, 12).map(lambda n: "q%d" % n), min_size=1, max_size=4, unique=True))
+        nums = draw(st.lists(st.one_of(st.integers(0, 12), st.integers(0, 12), st.integers(0, 999)), min_size=1, max_size=4, unique=True))
+        ctx.regs = ["q" + draw(st.sampled_from(["", "", "", "0", "00"])) + str(n) for n in nums]
     items = []
     n = draw(st.integers(1, cfg.max_items))
     symbolic = "params" if cfg.params else None
